@@ -19,10 +19,9 @@ from __future__ import annotations
 
 import ast
 
-from core.loader import AnalysisError, FuncInfo, Repo, ancestors, header, norm, own_nodes, parent
+from core.loader import FuncInfo, Repo, ancestors, header, norm, own_nodes, parent
 from core.report import Result
 
-from . import names
 from .c05_detector import check_detector
 from .c05_lowering import check_are_named, check_delegation, check_filter_selection
 from .c05_matcher import check_layer_mapping_update, check_regex_resolution_per_evaluation
